@@ -170,7 +170,7 @@ type Obs struct {
 }
 
 func (o *Obs) Acct(a sdk.AccAddress) AcctObs { return o.Accts[a.String()] }
-func (o *Obs) Mod(name string) AcctObs        { return o.Accts[ModAddr(name).String()] }
+func (o *Obs) Mod(name string) AcctObs       { return o.Accts[ModAddr(name).String()] }
 
 // Observe captures the semantic state through the keepers' public read API on ctx.
 func (l *Lab) Observe(ctx sdk.Context) *Obs {
